@@ -6,6 +6,9 @@ pub fn run(report: &Report) {
     report.require("tables_satisfying_preconditions");
     report.require("models_built");
     super::mfamily::run(report, "C03");
+    super::pyfront::sweep(report, "views", 3,
+        "Python Categorical(probabilities) in all three flavours, f32 and f64: the model is a value - overwriting the caller's array after the constructor returned must not change it (a model that tracks a mutable array is not one exactly invertible model)",
+        &["Categorical(probabilities"], &[]);
     super::pyfront::sweep(report, "callbacks", if report.tier == crate::report::Tier::Quick { 0 } else { 1 },
         "Python CustomModel with 8 well-formed cdfs (logistic incl. a near-step and a far-away one, step, constants, linear) x 8 approximate inverses (exact, constants, +-1e9, shifted, NaN, +-inf: the documentation promises they only affect speed) x 5 (thorough 9) supports incl. ones touching i32::MIN / i32::MAX; a CustomModel family with per-symbol parameters on all 256 messages over 4 symbols; ScipyModel over 6 scipy distributions x 3 supports: every (boundary) symbol of the support round-trips on the ANS and the range coder, arbitrary words decode into the support and re-encode to themselves",
         &[], &[]);
